@@ -142,7 +142,22 @@ VECTOR_BURSTS = [
 ]
 
 
+CTOR_VALUES = [-2, -1, 0, 1, 2, 0.5, 1.5, 3]
+
+
+def ctor_scenarios(rng, tier):
+    """constructor calls: Compare(low, high) over a grid incl. low == high and high < low, FuncBlock with
+    unpack given / omitted, Override with null_value given / omitted"""
+    ctors = [['cmp', lo, hi] for lo in CTOR_VALUES for hi in CTOR_VALUES]
+    ctors += [['func', sc, u] for sc in ('cnt', 'sel', 'glen') for u in (None, True, False)]
+    ctors += [['ovr']] + [['ovr', v] for v in (None, 0, False, 'x', 1, '', [1, 2])]
+    rng.shuffle(ctors)
+    for i in range(0, len(ctors), 12):
+        yield {'ctors': ctors[i:i + 12]}
+
+
 def scenarios(rng, tier):
+    yield from ctor_scenarios(rng, tier)
     if tier == 'quick':
         topo = list(topologies(2)) + rng.sample(list(topologies(3)), 300)
         nrandom = 2000
@@ -157,6 +172,9 @@ def scenarios(rng, tier):
 
 
 def shrink(scn):
+    if 'ctors' in scn:
+        yield from shrink_ops(scn, 'ctors')
+        return
     yield from shrink_ops(scn, 'bursts')
     for bi, b in enumerate(scn['bursts']):
         for cand in shrink_ops({'ops': b}):
@@ -176,7 +194,61 @@ def shrink(scn):
             yield {**scn, 'cblocks': scn['cblocks'][:-1], 'order': [j for j in scn.get('order', range(n)) if j != last]}
 
 
+def run_ctors(scn):
+    import edzed
+    from fractions import Fraction
+    from ..enc import enc
+    lines, trace, results = [], [], []
+
+    def rat(x):
+        f = Fraction(x)
+        return f'{f.numerator}/{f.denominator}'
+    for k, c in enumerate(scn['ctors']):
+        edzed.reset_circuit()
+        name = f'blk{k}'
+        try:
+            if c[0] == 'cmp':
+                lines.append(f'sim ctor cmp {rat(c[1])} {rat(c[2])}')
+                blk = edzed.Compare(name, low=c[1], high=c[2])
+                got = f'ok cmp~{rat(blk._low)}~{rat(blk._high)}'
+            elif c[0] == 'func':
+                lines.append(f"sim ctor func {c[1]} {'-' if c[2] is None else int(c[2])}")
+                kw = {} if c[2] is None else {'unpack': c[2]}
+                blk = edzed.FuncBlock(name, func=simcommon.FUNCS[(c[1], True)], **kw)
+                got = f"ok f~{c[1]}~{1 if blk._unpack is True else 0 if blk._unpack is False else '?'}"
+            else:
+                v = tuple(c[1]) if len(c) > 1 and isinstance(c[1], list) else (c[1] if len(c) > 1 else None)
+                lines.append('sim ctor ovr ' + ('-' if len(c) == 1 else enc(v)))
+                blk = edzed.Override(name, **({} if len(c) == 1 else {'null_value': v}))
+                got = 'ok ovr~' + enc(blk._null)
+        except ValueError:
+            got = 'err ValueError'
+        trace.append(got)
+        results.append(got)
+    edzed.reset_circuit()
+    return {'lines': lines, 'trace': trace, 'ctor_results': results, 'nontrivial': True,
+            'tags': ['constructors'], 'error': None, 'unstable': False}
+
+
+def ctor_oracle(scn, res):
+    """documented: Compare needs low <= high (ValueError otherwise); unpack defaults to True; null_value to None"""
+    out = []
+    for c, got in zip(scn['ctors'], res['ctor_results']):
+        if c[0] == 'cmp':
+            if (c[2] < c[1]) != (got == 'err ValueError'):
+                out.append({'clause': 'compare_constructor', 'what': f'Compare(low={c[1]}, high={c[2]}): {got}'})
+        elif c[0] == 'func':
+            want = 1 if c[2] is None else int(c[2])
+            if not got.endswith(f'~{want}'):
+                out.append({'clause': 'funcblock_constructor', 'what': f'FuncBlock(unpack={c[2]}): {got}'})
+        elif len(c) == 1 and got != 'ok ovr~n':
+            out.append({'clause': 'override_constructor', 'what': f'Override(): {got}'})
+    return out
+
+
 def run_impl(scn):
+    if 'ctors' in scn:
+        return run_ctors(scn)
     res = simcommon.run(scn)
     first_idle = next((i for i, t in enumerate(res['trace']) if t.startswith('idle')), None)
     changed_later = first_idle is not None and any(t.startswith('ev 1') for t in res['trace'][first_idle:])
@@ -191,6 +263,8 @@ def run_impl(scn):
 
 
 def oracle(scn, res):
+    if 'ctors' in scn:
+        return ctor_oracle(scn, res)
     out = []
     if res['error'] or res['unstable']:
         out.append({'clause': 'acyclic_circuit_runs', 'what': f"simulation of an acyclic circuit failed: "
